@@ -149,4 +149,45 @@ Section Items.
     destruct (negb (lpa_is_auto (r_left _)) && _ && ai_is_stretch (g_justify g)), (negb (lpa_is_auto (r_top _)) && _ && ai_is_stretch (g_align g));
       unfold_lifts; hm k Hk.
   Qed.
+  (* ---- 3. GridItem::available_space *)
+  Lemma rel_all_some l l' : Forall2 O l l' -> op_rel (Forall2 L) (all_some l) (all_some l').
+  Proof.
+    induction 1 as [|o o' r r' Ho Hr IH]; cbn [all_some op_rel]; [constructor|].
+    destruct o, o'; cbn [op_rel] in Ho; try contradiction; [|exact I].
+    destruct (all_some r), (all_some r'); cbn [op_rel] in *; try contradiction; [|exact I]. constructor; assumption.
+  Qed.
+  Lemma rel_osum l l' : Forall2 O l l' -> O (osum l) (osum l').
+  Proof.
+    intros Hl. apply rel_all_some in Hl. unfold osum. destruct (all_some l), (all_some l'); cbn [op_rel option_map] in *; try contradiction; [|exact I].
+    apply rel_fsum. exact Hl.
+  Qed.
+  Lemma rel_track_estimate fp t t' p p' : track_rel k t t' -> O p p' -> O (track_estimate fp t p) (track_estimate fp t' p').
+  Proof.
+    intros Ht Hp. track_open Ht. unfold track_estimate. destruct fp; [apply (rel_definite_value k Hk); assumption|exact Hbase].
+  Qed.
+  Lemma rel_adj_at a a' i : L a a' -> L (adj_at a i) (adj_at a' i).
+  Proof. intros Ha. unfold adj_at. destruct (Nat.even i && Nat.leb 2 i); [exact Ha|apply sc_zero]. Qed.
+
+  Definition ixtrack_rel (p p' : nat * track XQ) : Prop := fst p' = fst p /\ track_rel k (snd p) (snd p').
+  Lemma rel_enum_from i ts ts' : tracks_rel k ts ts' -> Forall2 ixtrack_rel (enum_from i ts) (enum_from i ts').
+  Proof.
+    intros Hts. revert i. induction Hts as [|t t' r r' Ht Hr IH]; intros i; cbn [enum_from]; constructor; [split; [reflexivity|exact Ht]|apply IH].
+  Qed.
+
+  Lemma rel_item_available_space ax fp ot ot' oadj oadj' oav oav' g g' :
+    tracks_rel k ot ot' -> L oadj oadj' -> O oav oav' -> gitem_rel k g g' ->
+    sz_rel O (item_available_space ax fp ot oadj oav g) (item_available_space ax fp ot' oadj' oav' g').
+  Proof.
+    intros Hot Hadj Hav Hg. gi_open Hg. unfold item_available_space. rewrite Egix. destruct (get_ax (g_ix g) (other_ax ax)) as [s e].
+    apply rel_set_ax; [apply rel_size_NONE|]. apply rel_osum.
+    eapply rel_map; [|apply rel_firstn, rel_skipn, rel_enum_from; exact Hot].
+    intros [i t] [i' t'] [Ei Ht]. cbn [fst snd] in Ei, Ht. subst i'.
+    eapply rel_option_map; [apply rel_track_estimate; assumption|]. intros v v' Hv. apply sc_add; [exact Hv|apply rel_adj_at; exact Hadj].
+  Qed.
+
+  Lemma rel_space_avail d d' s s' : av_rel L d d' -> sz_rel O s s' -> sz_rel (av_rel L) (space_avail d s) (space_avail d' s').
+  Proof.
+    intros Hd [Hw Hh]. unfold space_avail, size_map, sz_rel. cbn [width height].
+    split; [destruct (width s), (width s')|destruct (height s), (height s')]; cbn [op_rel] in *; try contradiction; assumption.
+  Qed.
 End Items.
